@@ -105,3 +105,21 @@ def namespace():
     import mc
     ns = {'mc': mc, 'Call': Call, 'float': float, 'frozenset': frozenset, 'set': set}
     return ns
+
+
+# ----------------------------------------------------------------------------- stdlib fixtures (C07)
+import collections as _collections
+
+NT = _collections.namedtuple('NT', 'a b')
+NT0 = _collections.namedtuple('NT0', '')
+NT3 = _collections.namedtuple('NT3', 'x y z')
+for _c in (NT, NT0, NT3):
+    _c.__module__ = __name__
+
+
+def f(*a, **k):
+    return (a, k)
+
+
+def factory():
+    return [0]
